@@ -117,6 +117,53 @@ func zzC15_builder() {
 	symAssert(zzSameOpts(c.Options(), ref) || len(c.Options()) != len(ref), "the clone is independent of the original's reuse")
 }
 
+// SetPath on a pooled message that already carries a path and options with higher numbers, with the inline value
+// buffer nearly full (the first attempt reports "too small" and is retried with a bigger buffer), and with a path
+// that is refused (a 256-byte segment): the list always equals the reference - a refused edit changes nothing
+func zzC15_builder_path() {
+	m := NewMessage(context.Background())
+	fill := symChoose("fill", 2) * 250 // 0: plenty of room; 250: the new path does not fit the inline buffer
+	ref := []zzRefOpt{}
+	if fill > 0 {
+		big := make([]byte, fill)
+		m.AddOptionBytes(2000, big)
+		ref = zzRefAdd(ref, zzRefOpt{2000, big})
+		symCover("buffer-nearly-full")
+	}
+	symAssert(m.SetPath("/old/p") == nil, "initial path")
+	ref = zzRefAdd(zzRefAdd(ref, zzRefOpt{message.URIPath, []byte("old")}), zzRefOpt{message.URIPath, []byte("p")})
+	m.SetContentFormat(message.AppOctets)
+	ref = zzRefAdd(ref, zzRefOpt{message.ContentFormat, zzUintBytes(uint32(message.AppOctets))})
+	m.SetAccept(message.AppCBOR)
+	ref = zzRefAdd(ref, zzRefOpt{message.Accept, zzUintBytes(uint32(message.AppCBOR))})
+	symAssert(zzSameOpts(m.Options(), ref), "set-up equals the reference")
+	switch symChoose("newpath", 3) {
+	case 0: // a path of a decided small length
+		seg := symString("seg", 1+symChoose("seglen", 8))
+		for k := 0; k < len(seg); k++ {
+			symAssume(seg[k] != '/')
+		}
+		err := m.SetPath("/n/" + seg)
+		symAssert(err == nil, "a path with short segments is accepted")
+		ref = zzRefAdd(zzRefAdd(zzRefRemove(ref, message.URIPath), zzRefOpt{message.URIPath, []byte("n")}), zzRefOpt{message.URIPath, []byte(seg)})
+		symCover("replaced")
+	case 1: // a segment of 256 bytes is refused
+		long := make([]byte, 256)
+		for k := range long {
+			long[k] = 'x'
+		}
+		err := m.SetPath("/n/" + string(long))
+		symAssert(err != nil, "a 256-byte segment is refused")
+		symCover("refused")
+	case 2: // the empty path changes nothing
+		symAssert(m.SetPath("") == nil, "the empty path is accepted")
+		symCover("empty")
+	}
+	symAssert(zzSameOpts(m.Options(), ref), "after SetPath the option list equals the reference list: the path replaced (or, when refused, untouched), every other option kept exactly once")
+	p, err := m.Path()
+	symAssert(err == nil && len(p) > 0 && p[0] == '/', "Path answers consistently")
+}
+
 func zzC15_builder_selftest() {
 	m := NewMessage(context.Background())
 	v := symBytes("v", 2)
